@@ -79,11 +79,20 @@ static off_t verif_lseek(int fd, off_t off, int whence)
 }
 static int verif_dup(int fd) { G_dups++; return fd + 1; }
 static int verif_close(int fd) { (void)fd; G_closes++; return 0; }
-static int open_flags_seen = -1, open_result;
+static int open_flags_seen = -1, open_result, open_calls, open_nonexcl;
 static int verif_open(const char *path, int flags, ...)
 {
 	(void)path;
-	open_flags_seen = flags;
+	open_calls++;
+	if (open_calls == 1)
+		open_flags_seen = flags;
+	if ((flags & (O_CREAT | O_EXCL)) != (O_CREAT | O_EXCL)) {
+		/* an open that does not insist on creating the file succeeds on an existing path */
+		open_nonexcl++;
+		return G_fd;
+	}
+	if (open_result < 0)
+		errno = EEXIST;
 	return open_result;
 }
 
@@ -534,6 +543,7 @@ void h_init_excl(void)
 	struct mtbl_writer *w = mtbl_writer_init("some/path.mtbl", NULL);
 	V_ASSERT((open_flags_seen & (O_CREAT | O_EXCL)) == (O_CREAT | O_EXCL), "C08: mtbl_writer_init opens with O_CREAT|O_EXCL");
 	V_ASSERT((open_flags_seen & O_ACCMODE) == O_WRONLY, "C08: opened for writing");
+	V_ASSERT(open_nonexcl == 0, "C08: the target path was opened without O_CREAT|O_EXCL (an existing file could be opened)");
 	if (open_result < 0) {
 		V_ASSERT(w == NULL && G_writes == 0 && G_dups == 0, "C08: existing path: NULL and nothing written");
 	} else {
